@@ -816,6 +816,39 @@ func (mb *MetricsBlock) addTsidToBlock(tsid uint64) {
 // for an input raw json []byte, return the metric name, datapoint value, timestamp, all tags, and any errors occurred
 // The metric name is returned as a raw []byte
 // The tags
+// A NaN datapoint value is not valid JSON; it is ingested as 0. Only a bare NaN
+// token is a value: the same letters inside a metric name, a tag key or a tag
+// value (e.g. "BaNaNa") must be left alone.
+func replaceNaNValues(rawJson []byte) []byte {
+	if !bytes.Contains(rawJson, []byte("NaN")) {
+		return rawJson
+	}
+
+	retVal := make([]byte, 0, len(rawJson))
+	inString := false
+	for i := 0; i < len(rawJson); i++ {
+		c := rawJson[i]
+		if inString {
+			if c == '\\' && i+1 < len(rawJson) {
+				retVal = append(retVal, c, rawJson[i+1])
+				i++
+				continue
+			}
+			if c == '"' {
+				inString = false
+			}
+		} else if c == '"' {
+			inString = true
+		} else if c == 'N' && bytes.HasPrefix(rawJson[i:], []byte("NaN")) {
+			retVal = append(retVal, '0')
+			i += 2
+			continue
+		}
+		retVal = append(retVal, c)
+	}
+	return retVal
+}
+
 func ExtractOTSDBPayload(rawJson []byte, tags *TagsHolder) ([]byte, float64, uint32, error) {
 	var mName []byte
 	var dpVal float64
@@ -941,7 +974,7 @@ func ExtractOTSDBPayload(rawJson []byte, tags *TagsHolder) ([]byte, float64, uin
 		}
 		return nil
 	}
-	rawJson = bytes.Replace(rawJson, []byte("NaN"), []byte("0"), -1)
+	rawJson = replaceNaNValues(rawJson)
 	err = jp.ObjectEach(rawJson, handler)
 	if err != nil {
 		log.Errorf("ExtractOTSDBPayload: failed to parse json %s, err=%v", rawJson, err)
@@ -1039,7 +1072,7 @@ func ExtractOTLPPayload(rawJson []byte, tags *TagsHolder) ([]byte, float64, uint
 		}
 		return nil
 	}
-	rawJson = bytes.Replace(rawJson, []byte("NaN"), []byte("0"), -1)
+	rawJson = replaceNaNValues(rawJson)
 	err = jp.ObjectEach(rawJson, handler)
 	if err != nil {
 		log.Errorf("ExtractOTLPPayload: failed to parse json %s, err=%v", rawJson, err)
